@@ -86,19 +86,24 @@ decreasing_by
 
 def entryKeyl (c : Cls) (e : Entry) : Str := c.fold (stripStr c e.key)
 
-def entryAliases (c : Cls) (e : Entry) : List Str :=
-  (e.aliases.map (normAlias c)).filter (fun a => !a.isEmpty)
+/-- every (name, owner key) pair of the table: each non-empty alias, folded with blanks collapsed, and the
+    folded key itself, bound to the folded key of its entry -/
+def allBindings (c : Cls) (T : Table) : List (Str × Str) := T.flatMap (entryBindings c)
 
-/-- positions are used to tell two entries apart -/
+/-- some name is bound to two different keys -/
+def clashB (h : List (Str × Str)) : Bool := h.any (fun p => h.any (fun q => p.1 == q.1 && p.2 != q.2))
+
+def nodupB : List Str → Bool
+  | [] => true
+  | x :: xs => !xs.contains x && nodupB xs
+
+/-- a table is ambiguous when two entries have the same key ignoring case, or some name (alias or key,
+    ignoring case and spacing) belongs to two different keys — an alias shared by two licenses, or an alias
+    equal to the key of another license — or an alias or key is a bare operator word or parenthesis -/
 def ambiguousB (c : Cls) (T : Table) : Bool :=
-  let ix := T.zipIdx
-  -- two entries with the same key ignoring case
-  ix.any (fun (e, i) => ix.any (fun (f, j) => i != j && entryKeyl c e == entryKeyl c f))
-  -- an alias owned by two different keys, or equal to the key of another license
-  || ix.any (fun (e, _) => ix.any (fun (f, _) => entryKeyl c e != entryKeyl c f &&
-        (entryAliases c e).any (fun a => (entryAliases c f).contains a || a == entryKeyl c f)))
-  -- an alias or a key that is a bare operator word or parenthesis
-  || T.any (fun e => (entryAliases c e).any (fun a => keywordStrings.contains a) || keywordStrings.contains (entryKeyl c e))
+  !nodupB (T.map (entryKeyl c)) || clashB (allBindings c T)
+  || (allBindings c T).any (fun b => keywordStrings.contains b.1)
+  || T.any (fun e => keywordStrings.contains (entryKeyl c e))
 
 /-! ### C15: the instance hypothesis on an index-built table -/
 
